@@ -1163,9 +1163,11 @@ sexp sexp_apply (sexp ctx, sexp proc, sexp args) {
 #endif
     }
     fuel = sexp_context_refuel(ctx);
+#ifdef CHIBI_VERIF
+    fuel = verif_slice(ctx, fuel);  /* leaves fuel <= 0 as it is */
+#endif
     if (fuel <= 0) goto end_loop;
 #ifdef CHIBI_VERIF
-    fuel = verif_slice(ctx, fuel);
     if (sexp_context_waitp(ctx)) verif_deadlock_check(ctx);
 #endif
     if (sexp_context_waitp(ctx)) {
